@@ -378,11 +378,22 @@ Proof. intros H. unfold writer_params. now rewrite H. Qed.
 
 Lemma scaling_base c m d i : scaling_needed can_cast_table c m d i = NoScale ->
   base_scaling_needed can_cast_table m d i = NoScale
-  \/ (c <> WPlain /\ nofinite i = true /\ base_scaling_needed can_cast_table m d i = Scale).
+  \/ (c <> WPlain /\ (nofinite i = true \/ allzero i = true) /\ base_scaling_needed can_cast_table m d i = Scale).
 Proof.
   unfold scaling_needed. destruct c; [now left| |];
     (destruct (base_scaling_needed can_cast_table m d i); [now left| |discriminate];
-     destruct (nofinite i); [right; repeat split; discriminate|discriminate]).
+     destruct (nofinite i) eqn:N; [right; repeat split; try discriminate; now left|];
+     destruct (allzero i) eqn:A; [right; repeat split; try discriminate; now right|discriminate]).
+Qed.
+
+(* only float data whose finite values are all zero can still need scaling (infinities) *)
+Lemma base_scale_allzero_float m d i : base_scaling_needed can_cast_table m d i = Scale -> allzero i = true ->
+  dt_kind m = DFloat.
+Proof.
+  unfold base_scaling_needed. intros H A. rewrite A in H.
+  destruct (dt_kind m); try reflexivity; destruct (dt_kind d); try discriminate;
+    try (destruct (Z.eqb _ _); discriminate);
+    destruct (mem_pair _ _ _); try discriminate; destruct (size0 i); discriminate.
 Qed.
 
 (* integer -> integer without scaling: the values fit the target, the write is a cast (the clip of
@@ -396,7 +407,8 @@ Lemma no_scaling_int_fits c m d i : In m dtypes -> In d dtypes ->
 Proof.
   intros Hm Hd Im Id [Hz Hr] Hs Hnf H. specialize (Hr Im Hs). destruct Hr as (R1 & R2 & R3).
   assert (Fit : int_min d <= imn i /\ imx i <= int_max d).
-  { destruct (scaling_base _ _ _ _ H) as [B|(_ & N & _)]; [|congruence].
+  { destruct (scaling_base _ _ _ _ H) as [B|(_ & [N|A] & Bs)]; [|congruence|
+      pose proof (base_scale_allzero_float m d i Bs A) as K; unfold is_intlike in Im; rewrite K in Im; discriminate].
     pose proof can_cast_int_sound as S. rewrite forallb_forall in S. specialize (S m Hm).
     rewrite forallb_forall in S. specialize (S d Hd). unfold cast_sound_pair in S. rewrite Im, Id in S. cbn [andb] in S.
     pose proof intlike_has_zero as Zr. rewrite forallb_forall in Zr. specialize (Zr d Hd). rewrite Id in Zr. cbn [negb orb] in Zr.
@@ -421,7 +433,8 @@ Lemma no_scaling_float_to_int c m d i : dt_kind m = DFloat -> is_intlike d = tru
   mem_pair (dt_id m) (dt_id d) can_cast_table = true \/ size0 i = true \/ allzero i = true
   \/ (c <> WPlain /\ nofinite i = true).
 Proof.
-  intros Km Id H. destruct (scaling_base _ _ _ _ H) as [B|(Hc & N & _)]; [|right; right; right; now split].
+  intros Km Id H. destruct (scaling_base _ _ _ _ H) as [B|(Hc & [N|A] & _)];
+    [|right; right; right; now split|right; right; now left].
   unfold base_scaling_needed in B. rewrite Km in B. unfold is_intlike in Id.
   destruct (dt_kind d); try discriminate;
     (destruct (mem_pair _ _ _); [now left|]; destruct (size0 i); [right; now left|];
